@@ -10,6 +10,8 @@
     necessary orderings hold (each with its reason in the rule table)
  R4 non-returning calls return to the artificial sink of the enclosing function, and the
     sink block is added when a call was retargeted
+How: R1 by may-flow from each slot binding (also in helpers that hand the slot back) to an assignment through it; the
+first-match analysis by specialisation per set of dangling slots.
 """
 from .lib import slots as SL
 from .lib import sym as S
